@@ -72,11 +72,17 @@ def run(chk):
     chk.cov["evaluations"] += len(stats)
     chk.cov["distinct_nontrivial"] = len({s["sig"] for s in stats if s["growths"] > 0})
     chk.cov["traces_validated_against_impl"] = len(stats) - len(bad)
-    chk.cov["rule"] = ("waiting-list heaps (real guard_queue_check reached through cmb_resourceguard_initialize) driven with arbitrary "
+    hh_eval, hh_nontriv, hh_valid = chk.cov["evaluations"], chk.cov["distinct_nontrivial"], chk.cov["traces_validated_against_impl"]
+    # ---- process level: waiters served by priority then waiting time; priority changes reposition ----
+    import simcheck
+    simcheck.run(chk, ["crowd", "resource", "pool", "lifecycle"], total_quick=1600, total_thorough=40000, extra_targets=["hhmain", "hhspec"])
+    chk.cov["evaluations"] += hh_eval
+    chk.cov["distinct_nontrivial"] += hh_nontriv
+    chk.cov["traces_validated_against_impl"] += hh_valid
+    chk.cov["input_distribution"]["waiting_list_heap_sequences"] = len(stats)
+    chk.cov["rule"] += (" Additionally: waiting-list heaps (real guard_queue_check reached through cmb_resourceguard_initialize) driven with arbitrary "
                        "(priority, entry time, key) triples incl. ties and int64 extremes; non-trivial = crosses a capacity doubling "
                        "(more than 8 simultaneous waiters)")
-    if stats:
-        chk.cov["samples"] = [{"profile": stats[0]["profile"], "ops": stats[0]["ops"], "growths": stats[0]["growths"]}]
     for lines, d in bad[:1]:
         r = hhcorr.behavioural_search(c_exe, lean_exe, spec_exe, lines)
         if r:
